@@ -81,9 +81,9 @@ def run(tier, seed):
         fs1 = vlib.run_workers("capture", ["--mode", "seq", "--depth", "2", "--sandbox", dcap], 1, dcap, "seq")
         fs2 = vlib.run_workers("capture", ["--mode", "par", "--rounds", "400" if tier == "thorough" else "60", "--seed", str(seed), "--sandbox", dcap], 1, dcap, "par")
         checked, classes = vlib.tlc_validate("Trace_Capture", vlib.split_chunks(fs1 + fs2, dcap, "cap", 2000))
-        out.absorb("Trace_Capture", checked, classes, label="capture_panic")
+        out.absorb("Trace_Capture", checked, classes, label="capture_panic", beyond=True)
     except vlib.Stall as st:
-        vlib.stall_violation(out, st, "capture")
+        vlib.stall_beyond(out, st, "capture")
     out.finish(dict(rule="reachability fix-point of the real Memfs over names {a,b} x depth 2 x <=1 link x data {empty,'x'} (5415 states; %s); from each selected state all 19 macros x "
                          "every path of the namespace (+ the empty path and a relative unclean spelling) x every second path / data in {empty,'x'} / mode in {0o40755,0o40700,0o700} / "
                          "link-text expectation, on Memfs and (same trees, <=1 link) on Vfs::stdfs() in a sandbox; non-trivial = the macro passed, or it panicked about an existing entry / changed the state"
